@@ -35,6 +35,7 @@ def _arm(fn: ast.AST, marker: str) -> ast.If:
 
 def run(ctx: Ctx) -> int:
     ad = ctx.func("_typehints:adapt_typehints")
+    ctx.expect_locals(ad, ["val", "typehint", "val_class", "not_subclass", "subtypehints", "prev_val", "return_type"])
     g = ctx.cfg(ad)
 
     # ---------------- C14.a Subclass arm ---------------------------------------
@@ -125,6 +126,7 @@ def run(ctx: Ctx) -> int:
     ok = len(norm) == 1 and isinstance(norm[0].value, ast.Call) and call_leaf(norm[0].value) == "get_import_path" and root_name(norm[0].value.args[0]) == "val_class" and g.dominates(g.cn(norm), g.cn(act)) and g.dominates(g.node_ids_of(flag_if[0]) if flag_if else [], g.cn(norm))
     ctx.oblige("C14.b", ok, norm[0] if norm else arm, "class_path is normalised from the checked class (not from user text) after the subclass test" if ok else "class_path normalisation does not use the checked class", fn=ad)
     act_fn = ctx.func("_typehints:adapt_class_type")
+    ctx.expect_locals(act_fn, ["value", "val_class", "parser", "init_args", "dict_kwargs", "instantiator_fn", "prev_val"])
     ga = ctx.cfg(act_fn)
     vdef = [s for s in walk_local(act_fn) if isinstance(s, ast.Assign) and isinstance(s.targets[0], ast.Name) and s.targets[0].id == "val_class"]
     ok = len(vdef) == 1 and isinstance(vdef[0].value, ast.Call) and call_leaf(vdef[0].value) == "import_object" and ast.unparse(vdef[0].value.args[0]) == "value.class_path"
@@ -212,6 +214,7 @@ def run(ctx: Ctx) -> int:
     ok = len(rets) == 1 and isinstance(rets[0].value, ast.Call) and root_name(rets[0].value.func) == "class_type" and isinstance(rets[0].value.func, ast.Name)
     ctx.oblige("C14.c", ok, dci, "the default instantiator is class_type(*args, **kwargs)" if ok else "default_class_instantiator no longer constructs class_type", fn=dci)
     gi = ctx.func("_signatures:group_instantiate_class")
+    ctx.expect_locals(gi, ["instantiator_fn"])
     ic = [c for c in calls_in(gi) if isinstance(c.func, ast.Name) and c.func.id == "instantiator_fn"]
     ok = len(ic) == 1 and ast.unparse(ic[0].args[0]) == "group.group_class" and not guard_chain(ic[0])
     ctx.oblige("C14.c", ok, ic[0] if ic else gi, "a class group is constructed exactly once from group.group_class" if ok else "group_instantiate_class construction changed", fn=gi)
